@@ -130,11 +130,42 @@ fn truncated(r: &mut Rng, pem: &str) -> String {
     pem[..cut.min(pem.len() - 3)].to_string()
 }
 
+/// the longest prefix of `pem` that is certainly not a complete block (inside the END line)
+fn incomplete_limit(pem: &str) -> usize {
+    let end = pem.find("-----END").unwrap_or(pem.len());
+    (end + 11).min(pem.len() - 3)
+}
+
+/// Every truncation prefix (quick: every `stride`-th, offset by the seed) of the new certificate file and of the new key
+/// file in both encodings, each inside a two-file update A -> B with reloads landing while the file is cut and after it
+/// is complete. The histories use the vocabulary of the TLC-enumerated ones and are judged by the same trace specification.
+fn prefix_sweep(pairs: &[Pair], stride: usize, offset: usize) -> Vec<Value> {
+    let b = pairs.iter().find(|p| p.id == "B").unwrap();
+    let mut out = Vec::new();
+    for (file, enc, pem) in [("cert", "pkcs8", &b.cert_pem), ("key", "pkcs8", &b.key_pem), ("key", "sec1", &b.key_pem_sec1)] {
+        let other = if file == "cert" { "key" } else { "cert" };
+        let mut cut = offset % stride;
+        while cut <= incomplete_limit(pem) {
+            // the other file is replaced first (odd cuts) or last (even cuts): the reload on the cut file sees B|cut or A|cut
+            let steps = if cut % 2 == 1 {
+                json!([{"a": other, "id": "B", "whole": true, "enc": enc}, {"a": file, "id": "B", "whole": false, "cut": cut, "enc": enc}, {"a": "reload"},
+                       {"a": file, "id": "B", "whole": true, "enc": enc}, {"a": "reload"}])
+            } else {
+                json!([{"a": file, "id": "B", "whole": false, "cut": cut, "enc": enc}, {"a": "reload"}, {"a": other, "id": "B", "whole": true, "enc": enc}, {"a": "reload"},
+                       {"a": file, "id": "B", "whole": true, "enc": enc}, {"a": "reload"}])
+            };
+            out.push(json!({"sweep": file, "enc": enc, "cut": cut, "steps": steps}));
+            cut += stride;
+        }
+    }
+    out
+}
+
 async fn run_history(log: &Log, r: &mut Rng, pairs: &[Pair], sc: &Value, check_expiry: bool, dir: &std::path::Path) {
     let mut ev: Vec<Value> = Vec::new();
     let (cp, kp) = (dir.join("cert.pem"), dir.join("key.pem"));
     // the initial load is a load like any other: a reloader must not come up on files that do not hold a matching pair
-    if r.chance(1, 12) {
+    if sc.get("sweep").is_none() && r.chance(1, 12) {
         let bad = r.below(3);
         std::fs::write(&cp, if bad == 1 { "not a pem file\n".to_string() } else { pairs[0].cert_pem.clone() }).unwrap();
         std::fs::write(&kp, match bad { 0 => if r.chance(1, 2) { pairs[1].key_pem.clone() } else { pairs[1].key_pem_sec1.clone() }, 2 => truncated(r, &pairs[0].key_pem), _ => pairs[0].key_pem.clone() }).unwrap();
@@ -177,8 +208,11 @@ async fn run_history(log: &Log, r: &mut Rng, pairs: &[Pair], sc: &Value, check_e
                 x => { let x = if x == "C" { cvar } else if x == "B" { bvar } else { x };
                        let p = pairs.iter().find(|p| p.id == x).unwrap();
                        // the key is stored in PKCS#8 or in the traditional SEC1 encoding
-                       let pem = if a == "cert" { &p.cert_pem } else if r.chance(1, 2) { &p.key_pem_sec1 } else { &p.key_pem };
-                       Some(if whole { pem.clone() } else { truncated(r, pem) }) }
+                       let enc = st.get("enc").and_then(|x| x.as_str());
+                       let pem = if a == "cert" { &p.cert_pem } else if enc == Some("sec1") || (enc.is_none() && r.chance(1, 2)) { &p.key_pem_sec1 } else { &p.key_pem };
+                       // a prefix sweep names the cut position itself; otherwise one of the five classes is drawn
+                       let cut = st.get("cut").and_then(|x| x.as_u64()).map(|c| c as usize);
+                       Some(if whole { pem.clone() } else if let Some(c) = cut { pem[..c.min(incomplete_limit(pem))].to_string() } else { truncated(r, pem) }) }
             };
             match content { None => { let _ = std::fs::remove_file(path); } Some(c) => std::fs::write(path, c).unwrap() }
             ev.push(json!({"ev": "write", "file": a, "id": id, "whole": whole}));
@@ -282,6 +316,8 @@ pub fn run(args: &Args, log: &Log) -> Result<(), String> {
             run_history(log, &mut r, &pairs, sc, !ce, dir.path()).await;
         }
     });
+    let sweep = prefix_sweep(&pairs, if thorough { 1 } else { 12 }, args.seed as usize);
+    rt.block_on(async { for sc in sweep.iter() { run_history(log, &mut r, &pairs, sc, true, dir.path()).await; } });
     rt.block_on(async { for _ in 0..(if thorough { 10 } else { 2 }) { run_race(log, if thorough { 2000 } else { 400 }, dir.path()).await; } });
     log.block(json!({"kind": "end"}), vec![json!({"ev": "end", "panics": PANICS.load(Ordering::SeqCst) - panics0})]);
     let _ = std::panic::take_hook();
